@@ -107,6 +107,7 @@ CLAIMED["C07"] = {
             "A ball-tree node's radius is computed over every point of the node; rdistance overrides that delegate to another metric inherit that metric's reduced degree, and exponents that are truncated copies of the metric's exponent are rejected; coordinate differences carry the unit of distances. "
             "No distance in linfa-nn is computed through the expanded square |a|^2 + |b|^2 - 2<a,b> (cancellation-prone away from the origin, so that path would disagree with the ones using the metric's rdistance). "
             "The dimension test of a query runs outside the loop over the stored points (an empty index must reject a malformed query too); the index types contain no interior mutability (a query cannot change the answer to the next); in linfa-nn no generic-float / f64 value is narrowed to f32 and stored, and no f32 arithmetic over converted values is widened back into the generic float. "
+            "For k = 0 (the quantifier starts there): every unwrap of peek / peek_mut / pop / first / last on a container in linfa-nn is reached only under evidence that the container is non-empty - an emptiness or length test on the path, a range bounded by its length, a dominating push - and a length test against k counts only where k is known positive. "
             "Not decided: geometric sufficiency of pruning bounds, k-NN ties. "
             "Also decided: no allocation in linfa-nn is sized by a caller-supplied count alone (`with_capacity(k)` aborts for the k > n the property speaks about); a `from_batch` written out on CommonNearestNeighbour is a second dispatcher and is held to the same arm test; an impl of Distance that overrides one of rdistance / dist_to_rdist / rdist_to_dist overrides all three. "
             "A power of a coordinate difference in a Distance impl is taken of its absolute value or with a literal even exponent; the linear scan's admission through rdist_to_dist(..) < range counts as a plain-distance admission; the k-d tree's post-filter carries no additive slack. "
